@@ -45,7 +45,9 @@ def main():
     budget_s = {'quick': 25, 'thorough': 240}[a.tier]
     if a.budget == 'refute': budget_s = max(budget_s, 120)
     seen_sig = {}
-    for case in mod.cases(rng, a.tier if a.budget != 'refute' else 'thorough', focus):
+    import itertools
+    # PINNED: witnesses of recorded findings (known_findings.txt), evaluated on every run so that each listed finding is reported on every run
+    for case in itertools.chain(getattr(mod, 'PINNED', []), mod.cases(rng, a.tier if a.budget != 'refute' else 'thorough', focus)):
         n += 1
         k = mod.nontrivial(case)
         if k is not None: keys.add(k)
